@@ -21,7 +21,7 @@ CLAIMED = {
 CLAIMED.update({
     "C18": (
         "Coq proof by induction over domains/chunks of a hand model of ngrid.py + exact integer correspondence",
-        "16 theorems (axiom-free, any semiring incl. R and Z): itertools.product order/set, chunk concatenation and shape, "
+        "17 theorems (axiom-free, any semiring incl. R and Z; incl. `history_routes_agree` for histories of weight/point/grid replacement on one object): itertools.product order/set, chunk concatenation and shape, "
         "non-vectorised result independent of every chunk size >= 1 and equal to the nested sum, vectorised = nested sum, "
         "separable integrands factorise, size/order specs, repeated-grid mode = k copies. The hand model (generators, chunk "
         "alignment, partial application over the last domain) is tied to the code by exact integer correspondence evaluated by "
@@ -32,7 +32,7 @@ CLAIMED.update({
     ),
     "C14": (
         "Coq proof over the order generators re-translated from utils.py each run + exact/oracle correspondence of Grid.moments",
-        "12 theorems: the Cartesian / pure / pure-radial / radial order lists (generator translated from the Python source on every "
+        "11 theorems: the Cartesian / pure / pure-radial / radial order lists (generator translated from the Python source on every "
         "run) are exactly the documented sets in Horton order without duplicates for every order; (l,m)->row index arithmetic is the "
         "position in the order list; every entry of the moments model is the quadrature of f times the basis function about the "
         "centre for all four types and any number of centres; dipole helper formula. Model of Grid.moments tied by exact Z "
@@ -63,7 +63,7 @@ CLAIMED.update({
 CLAIMED.update({
     "C10": (
         "Coq proof by induction over operation histories of a per-class state-machine model (lazy k-d tree as oracle) + history correspondence",
-        "18 theorems: for every grid class, every history of point/weight reassignments, queries and selections, the query result is a "
+        "19 theorems: for every grid class, every history (incl. histories that continue on a grid returned by a selection, operation `Enter`) of point/weight reassignments, queries and selections, the query result is a "
         "permutation of the brute-force ball specification over the grid's current public points and weights (full strength under the "
         "`good` configuration; a `_partial` version for any configuration lists exactly which histories are excluded), inf radius = whole "
         "grid, indices map back, selection by int / NumPy int / slice / index array / mask returns exactly the selected rows with domain or "
@@ -126,7 +126,7 @@ CLAIMED.update({
 CLAIMED.update({
     "C11": (
         "Coq proof (Cauchy-Schwarz completeness of the image box, exactness, no duplicates) of a generic model of PeriodicGrid.get_localgrid + exact bigQ correspondence and brute-force oracle",
-        "15 theorems at R for any list of lattice vectors with dual reciprocal vectors (up to 3 dimensions): every (point, lattice translation) "
+        "13 theorems at R for any list of lattice vectors with dual reciprocal vectors (up to 3 dimensions): every (point, lattice translation) "
         "inside the sphere lies in the enumerated integer box (`complete`), the model's range is the code's ceil/floor formula, the local grid is "
         "exactly the set of images within the radius with parent weight and index, no duplicates, stored position = parent + translation, "
         "wrapping is irrelevant, no lattice = plain grid; `_refuted` theorems document the three defects of the pinned commit (repaired by fix: "
@@ -178,7 +178,7 @@ CLAIMED.update({
     ),
     "C06": (
         "Coq proofs at R of the Becke partition (formulas re-translated from becke.py each run) incl. chunking for every chunk size + rational correspondence on the code's own distances",
-        "27 theorems for every atom count, order and point: iterated switch maps [-1,1] to itself and is odd, |a| <= 1/2 and antisymmetric "
+        "26 theorems for every atom count, order and point: iterated switch maps [-1,1] to itself and is odd, |a| <= 1/2 and antisymmetric "
         "with clipping, cell in [0,1] and s_AB + s_BA = 1, positive denominator (triangle inequality proved for Euclidean coordinates), weights "
         "in [0,1] summing to one, 1/0 at nuclei, dependence on distances only hence rigid-motion invariance, relabeling equivariance, the three "
         "evaluation routes agree, chunked evaluation = unchunked for EVERY chunk size >= 1 and every index table, Hirshfeld shares sum to one, "
@@ -225,7 +225,7 @@ CLAIMED.update({
     ),
     "C19": (
         "Coq proof by induction over call histories of a heap/alias model whose aliasing configuration is re-extracted from the source each run + history correspondence",
-        "24 theorems for every history: refinement of the shipped-data specification holds for all histories exactly when the (extracted) "
+        "28 theorems for every history (incl. `results_function_of_call`: with the guard in place and every scale user storing the scale, each result depends only on the call): refinement of the shipped-data specification holds for all histories exactly when the (extracted) "
         "configuration isolates cache entries from returned objects (iff), separation invariant implies refinement, copying at the cache boundary "
         "establishes it, atomic grids inherit it, no counterexample shorter than 2 calls, instance theorems about the configuration extracted from "
         "AngularGrid.__init__ / _generate_atomic_grid / get_shell_grid / load_atomic_gaussian_params / set_maximum_parameter_b (scale b fixed once "
@@ -250,7 +250,7 @@ CLAIMED.update({
 CLAIMED.update({
     "C01": (
         "Coq/Coquelicot proofs for every n (induction, telescoping trigonometric sums, auto_derive) over index-function models with leaves re-translated from onedgrid.py each run + interval correspondence + mpmath moment oracle",
-        "54 theorems for every admissible n: trapezoid/midpoint/Simpson exactness (induction), discrete Chebyshev orthogonality at the Fejer-1/"
+        "49 theorems for every admissible n: trapezoid/midpoint/Simpson exactness (induction), discrete Chebyshev orthogonality at the Fejer-1/"
         "Gauss-Chebyshev, Clenshaw-Curtis and Fejer-2 nodes, Clenshaw-Curtis exact to degree n-1 for the weights AS THE CODE COMPUTES THEM, "
         "Fejer-1/Fejer-2 exact to the degrees that hold (`_partial`), `_refuted` at n=3 and a proof that the defect occurs at every odd n (Fejer-1) "
         "/ every n (Fejer-2) plus proofs that the proposed fixes are exact for every n; Gauss-Chebyshev exactness unconditionally, Chebyshev-2 / "
